@@ -42,14 +42,22 @@ async def queue_view(
     pending_invocations = []
     queue_size = app.broker.count_invocations()
 
-    # Warning: This operation has overhead as we retrieve and re-queue messages
-    for _ in range(min(limit, queue_size)):
-        if invocation_id := app.broker.retrieve_invocation():
-            pending_invocations.append(app.state_backend.get_invocation(invocation_id))
+    # Warning: This operation has overhead as we retrieve and re-queue messages.
+    # The broker has no peek: the whole queue is drained and every message is routed
+    # back in its original order (also when something fails), so that viewing the
+    # queue never reorders or drops messages.
+    queued_ids = []
+    try:
+        for _ in range(queue_size):
+            if (invocation_id := app.broker.retrieve_invocation()) is None:
+                break
+            queued_ids.append(invocation_id)
+    finally:
+        for invocation_id in queued_ids:
+            app.broker.route_invocation(invocation_id)
 
-    for invocation in pending_invocations:
-        # Re-route the invocation back to the broker
-        app.broker.route_invocation(invocation.invocation_id)
+    for invocation_id in queued_ids[: max(limit, 0)]:
+        pending_invocations.append(app.state_backend.get_invocation(invocation_id))
 
     return templates.TemplateResponse(
         request,
